@@ -12,7 +12,13 @@ strategy order/subset, while these monitors observe the returned objects:
                        oracle's own coercion table; otherwise the value was fabricated/mangled;
  (c) differential    — fold vs fold_enhanced; heal() vs fold_enhanced on the same raw;
  (d) strict-valid raw — accepted, by STRICT with confidence 1.0 and exactly model_validate(json.loads(raw))
-                       whenever STRICT is tried first.
+                       whenever STRICT is tried first;
+ (e) sessions        — ONE long-lived Chaperone folds the same / related texts several times (plain and enhanced,
+                       a different strategy list per call, equal-but-distinct and re-typed schemas, re-entrant folds
+                       from the on_misfold callback); every step goes through monitors (a)-(d), so state carried from
+                       an earlier call (memo, statistics, adaptive order) that changes a later verdict is seen;
+ (f) healing loop    — max_retries 0..15, confidence_decay 0..2.5, success on any attempt (or never): every reported
+                       confidence of a valid result stays in [0,1].
 """
 import json
 import sys
@@ -104,6 +110,14 @@ FIXED = [
     (COERCE3, '{"age": "4", "price": "2.5", "ok": "yes", "tags": "1, 2", "name": 5}', None),
     (COERCE3, '{"age": " 4 ", "price": "nan", "ok": "NO", "tags": "7", "name": 1.5}', None),
     (COERCE3, '```json\n{"age": "4", "price": "2.5", "ok": "1", "tags": [1], "name": false}\n```', None),
+    # literal non-ASCII typography / normalisation-unstable code points inside string values of otherwise clean JSON
+    (PERSON, '{"name": "it\u2019s \u201cfine\u201d \u2013 ok\u2026", "age": 30}', _P("it\u2019s \u201cfine\u201d \u2013 ok\u2026", 30)),
+    (PERSON, '{"name": "\ufb01 \uff11\uff12 \u212b e\u0301 \u00a0x\u200b \uff02q\uff02", "age": 1}',
+     _P("\ufb01 \uff11\uff12 \u212b e\u0301 \u00a0x\u200b \uff02q\uff02", 1)),
+    (PERSON, '```json\n{"name": "\u2018q\u2019 \u00abw\u00bb \u0130\u00df", "age": 2}\n```', _P("\u2018q\u2019 \u00abw\u00bb \u0130\u00df", 2)),
+    (PERSON, '{"name": "l\u2019\u00e9t\u00e9 \u201ehigh\u201c wide\u3000gap", "age": 3,}', _P("l\u2019\u00e9t\u00e9 \u201ehigh\u201c wide\u3000gap", 3)),
+    (ITEM, '{"name": "\u201cw\u201d", "price": 1.5, "tags": ["\u2018a\u2019", "b\u2019s", "\u00bd\u2122"]}',
+     {"name": "\u201cw\u201d", "price": 1.5, "tags": ["\u2018a\u2019", "b\u2019s", "\u00bd\u2122"]}),
 ]
 
 _ORDERS = None
